@@ -35,6 +35,9 @@ CHECKS = {
  'C14': dict(text='The clean-up map is observed for all 1,114,112 code points (coverage is session state of the trace spec) with the Unicode facts of each character; TLC constrains it (U1 digit only from decimal value, U2 space only from Zs, U3 ASCII alphanumerics fixed, U4 no letters produced, U5 targets are ASCII fixed points), checks every entry of the library\'s declared table alone and in context (T1), validates clean() on TLC-generated class strings x delete sets against the transducer Clean.tla built from the observed map (U6-U9) and the look-alike spellings of valid numbers of every module end to end (U10).',
              note='Unicode facts come from unicodedata (trusted environment).',
              tech='TLC trace validation against a TLA+ transducer (Clean.tla), exhaustive over code points', ref='DESIGN.md §4 C14'),
+ 'C18': dict(text='Wsgi.tla: the application as a request/response machine with its template cache. TLC generates request sequences (4 requests over 17 query classes x html/ajax); each sequence is served by online_check/stdnum.wsgi in a fresh interpreter, every corpus number of every module and every valid number that still carries markup is submitted in both modes; TLC validates each response: Q1 status 200, Q2 content type, Q3/Q4 the formats listed are exactly (as a multiset) those whose is_valid() accepts the number, computed over an independently enumerated module list, Q5 raw marker absent / escaped marker present in the body (searched on code points), Q6 equal to the same request served first by a fresh interpreter, T0 template loaded exactly once.',
+             note='urllib.parse.parse_qs, json and html.escape are trusted environment.',
+             tech='TLA+ request/response machine (Wsgi.tla) + TLC-generated request sequences + TLC trace validation', ref='DESIGN.md §4 C18'),
  'C15': dict(text='TLC enumerates (op, position, foreign character class); the driver puts a same-valued foreign digit / look-alike letter at every position of corpus numbers of every module (all Nd/No/Nl code points outside the clean-up table in thorough), plus case-mapping specials over the whole corpus; TLC evaluates S1 (returned value is ASCII) on every accepted session; exclusions are constants of the spec.',
              note='Acceptance itself is not judged, only pass-through of non-ASCII characters.',
              tech='TLA+ contract clause S1 (Api.tla) + TLC trace validation; TLC-generated foreign-character edits', ref='DESIGN.md §4 C15'),
